@@ -35,6 +35,118 @@ type Restore struct {
 	Pre   bool   `json:"pre"`  // a finalized version 1 exists before the restore
 	Last  string `json:"last"` // start | chunk | abort | finalize : the interrupted call
 	J     int    `json:"j"`    // chunks restored before the interrupted call (chunk/abort)
+	// Shared: instead of Pre, the database holds finalized versions 1 and 2 of the SAME key space as
+	// the checkpoint (version 2 = the checkpoint's contents minus its last key), so the restored
+	// chunks consist mostly of nodes that already exist locally.
+	Shared bool `json:"shared,omitempty"`
+	// Cont: "normal" = after the interrupted restore and the reopen the node continues with ordinary
+	// operation: it commits and finalizes its OWN root for the restore version (and one more version)
+	// instead of restoring again.
+	Cont string `json:"cont,omitempty"`
+}
+
+// sharedHistory: finalized versions 1 (keys 0..nkeys-3) and 2 (+ key nkeys-2); returns root 2.
+func sharedHistory(ndb api.NodeDB, nkeys int) (node.Root, error) {
+	ctx := context.Background()
+	t := mkvs.New(nil, ndb, node.RootTypeState)
+	defer t.Close()
+	for i := 0; i < nkeys-2; i++ {
+		if err := t.Insert(ctx, rKey(i), rVal(i)); err != nil {
+			return node.Root{}, err
+		}
+	}
+	_, h1, err := t.Commit(ctx, testNs, 1)
+	if err != nil {
+		return node.Root{}, err
+	}
+	if err = ndb.Finalize([]node.Root{{Namespace: testNs, Version: 1, Type: node.RootTypeState, Hash: h1}}); err != nil {
+		return node.Root{}, err
+	}
+	if err = t.Insert(ctx, rKey(nkeys-2), rVal(nkeys-2)); err != nil {
+		return node.Root{}, err
+	}
+	_, h2, err := t.Commit(ctx, testNs, 2)
+	if err != nil {
+		return node.Root{}, err
+	}
+	root2 := node.Root{Namespace: testNs, Version: 2, Type: node.RootTypeState, Hash: h2}
+	return root2, ndb.Finalize([]node.Root{root2})
+}
+
+func idxRange(n int, extra ...int) []int {
+	out := make([]int, 0, n+len(extra))
+	for i := 0; i < n; i++ {
+		out = append(out, i)
+	}
+	return append(out, extra...)
+}
+
+// readIdx: complete iteration must return exactly the keys with the given indices (ascending).
+func readIdx(ndb api.NodeDB, root node.Root, idx []int) (st string) {
+	ctx := context.Background()
+	defer func() {
+		if p := recover(); p != nil {
+			st = fmt.Sprintf("panic: %v", p)
+		}
+	}()
+	t := mkvs.NewWithRoot(nil, ndb, root)
+	defer t.Close()
+	it := t.NewIterator(ctx)
+	defer it.Close()
+	i := 0
+	for it.Rewind(); it.Valid(); it.Next() {
+		if i >= len(idx) || !bytes.Equal(it.Key(), rKey(idx[i])) || !bytes.Equal(it.Value(), rVal(idx[i])) {
+			return "wrong-contents"
+		}
+		i++
+	}
+	if err := it.Err(); err != nil {
+		return "error: " + err.Error()
+	}
+	if i != len(idx) {
+		return fmt.Sprintf("incomplete (%d of %d keys)", i, len(idx))
+	}
+	return "exact"
+}
+
+// continueNormally: the node builds and finalizes its own root for the restore version on top of
+// version 2, then one more version; every finalized root must read back exactly.
+func continueNormally(ndb api.NodeDB, root2 node.Root, nkeys int) error {
+	ctx := context.Background()
+	t := mkvs.NewWithRoot(nil, ndb, root2)
+	defer t.Close()
+	prevIdx := idxRange(nkeys - 1)
+	for step, ver := range []uint64{restoreVersion, restoreVersion + 1} {
+		extra := nkeys + 5 + step
+		if err := t.Insert(ctx, rKey(extra), rVal(extra)); err != nil {
+			return fmt.Errorf("building own version %d: %w", ver, err)
+		}
+		_, h, err := t.Commit(ctx, testNs, ver)
+		if err != nil {
+			return fmt.Errorf("commit of own version %d: %w", ver, err)
+		}
+		own := node.Root{Namespace: testNs, Version: ver, Type: node.RootTypeState, Hash: h}
+		if err = ndb.Finalize([]node.Root{own}); err != nil {
+			return fmt.Errorf("Finalize of own version %d: %w", ver, err)
+		}
+		prevIdx = append(prevIdx, extra)
+		if l, ok := ndb.GetLatestVersion(); !ok || l != ver {
+			return fmt.Errorf("latest version is %d/%v after finalizing own version %d", l, ok, ver)
+		}
+		if st := readIdx(ndb, root2, idxRange(nkeys-1)); st != "exact" {
+			return fmt.Errorf("finalized version 2 reads back %s after finalizing own version %d", st, ver)
+		}
+		if st := readIdx(ndb, own, prevIdx); st != "exact" {
+			return fmt.Errorf("own finalized version %d reads back %s", ver, st)
+		}
+		if ver == restoreVersion {
+			roots, _ := ndb.GetRootsForVersion(ver)
+			if len(roots) != 1 {
+				return fmt.Errorf("GetRootsForVersion(%d) lists %d roots after finalizing the own root (the abandoned checkpoint root must be gone)", ver, len(roots))
+			}
+		}
+	}
+	return nil
 }
 
 const restoreVersion = 3
@@ -178,9 +290,15 @@ func restoreChild(dir, cpDir string, c Case) int {
 		fmt.Fprintln(os.Stderr, err)
 		return 4
 	}
-	if r.Pre {
+	if r.Pre && !r.Shared {
 		if err = preHistory(ndb); err != nil {
 			fmt.Fprintln(os.Stderr, "pre:", err)
+			return 4
+		}
+	}
+	if r.Shared {
+		if _, err = sharedHistory(ndb, r.NKeys); err != nil {
+			fmt.Fprintln(os.Stderr, "shared history:", err)
 			return 4
 		}
 	}
@@ -409,11 +527,15 @@ func runRestoreCase(self string, c Case) result {
 	res.notes[fmt.Sprintf("chunks:%d", len(meta.Chunks))]++
 	// node keys that exist before the restore starts (after the optional finalized version 1)
 	preKeys := 0
+	var root2 node.Root
 	{
 		pdir, _ := os.MkdirTemp("", "verif-crash-pre")
 		if pdb, perr := openDB(c.Backend, pdir); perr == nil {
-			if r.Pre {
+			if r.Pre && !r.Shared {
 				_ = preHistory(pdb)
+			}
+			if r.Shared {
+				root2, _ = sharedHistory(pdb, r.NKeys)
 			}
 			pdb.Close()
 			preKeys, _ = countNodeKeys(pdir)
@@ -421,7 +543,10 @@ func runRestoreCase(self string, c Case) result {
 		os.RemoveAll(pdir)
 	}
 	var twin *twinInfo
-	if c.Backend == "badger" {
+	if r.Shared {
+		r.Pre = false
+	}
+	if c.Backend == "badger" && !r.Shared {
 		if twin, err = badgerTwin(c, cpDir); err != nil {
 			res.viol = append(res.viol, "badger twin restore failed: "+err.Error())
 			twin = nil
@@ -509,6 +634,9 @@ func runRestoreCase(self string, c Case) result {
 				res.notes["restore:fully"]++
 			} else {
 				wantHas, wantLast := r.Pre, uint64(1)
+				if r.Shared {
+					wantHas, wantLast = true, 2
+				}
 				if has != wantHas || (has && last != wantLast) {
 					res.viol = append(res.viol, fmt.Sprintf("%s: latest version is %d/%v, expected %d/%v", where, last, has, wantLast, wantHas))
 				}
@@ -579,6 +707,19 @@ func runRestoreCase(self string, c Case) result {
 				if st := readRoot(ndb, preRoot); st != "exact" {
 					res.viol = append(res.viol, where+": previously finalized root reads back "+st)
 				}
+			}
+			if r.Shared {
+				if st := readIdx(ndb, root2, idxRange(r.NKeys-1)); st != "exact" {
+					res.viol = append(res.viol, where+": previously finalized version 2 reads back "+st)
+				}
+			}
+			if !fully && r.Shared && r.Cont == "normal" {
+				if err := continueNormally(ndb, root2, r.NKeys); err != nil {
+					res.viol = append(res.viol, where+": ordinary operation after the interrupted restore: "+err.Error())
+				} else {
+					res.notes["restore:continued-normally-ok"]++
+				}
+				return
 			}
 			if !fully {
 				// retry: a complete restore from scratch must work after the reopen cleanup
